@@ -30,6 +30,7 @@ static FAIL_K: AtomicUsize = AtomicUsize::new(0);
 static FAIL_MIN: AtomicUsize = AtomicUsize::new(0);
 static ZEROED_ONLY: AtomicBool = AtomicBool::new(false);
 static IN_ZEROED: AtomicBool = AtomicBool::new(false);
+static IN_REALLOC: AtomicBool = AtomicBool::new(false);
 static BIG_COUNT: AtomicUsize = AtomicUsize::new(0);
 static FAILED: AtomicUsize = AtomicUsize::new(0);
 
@@ -168,7 +169,7 @@ unsafe impl GlobalAlloc for GAlloc {
             let k = FAIL_K.load(Relaxed);
             if layout.size() >= FAIL_MIN.load(Relaxed)
                 && FAIL_MIN.load(Relaxed) != 0
-                && (!ZEROED_ONLY.load(Relaxed) || IN_ZEROED.load(Relaxed))
+                && (!ZEROED_ONLY.load(Relaxed) || IN_ZEROED.load(Relaxed) || IN_REALLOC.load(Relaxed))
             {
                 let c = BIG_COUNT.fetch_add(1, Relaxed) + 1;
                 if layout.size() > MAX_REQ.load(Relaxed) {
@@ -216,7 +217,9 @@ unsafe impl GlobalAlloc for GAlloc {
             return System.realloc(ptr, layout, new_size);
         }
         let new_layout = Layout::from_size_align_unchecked(new_size, layout.align());
+        IN_REALLOC.store(true, Relaxed);
         let np = self.alloc(new_layout);
+        IN_REALLOC.store(false, Relaxed);
         if !np.is_null() {
             std::ptr::copy_nonoverlapping(ptr, np, layout.size().min(new_size));
             self.dealloc(ptr, layout);
@@ -234,8 +237,9 @@ pub struct Arm {
     pub fail_k: usize,
     /// requests of at least this many bytes are counted as "large"; 0 = do not count
     pub fail_min: usize,
-    /// only `alloc_zeroed` requests are candidates (hpbf uses it for the tape and the
-    /// interpreter context and for nothing else)
+    /// only `alloc_zeroed` and `realloc` requests are candidates: hpbf uses `alloc_zeroed` for the
+    /// tape and the interpreter context and for nothing else; `realloc` covers a tape that is grown in
+    /// place (and the few Vec growths, which fail cleanly through handle_alloc_error)
     pub zeroed_only: bool,
 }
 
